@@ -151,6 +151,20 @@ CHECKS.update({
             "DESIGN.md section 4 C12"),
 })
 
+CHECKS.update({
+    "C20": ("Hypothesis PBT: generated template arguments (tensor shapes / ranks, HMM orderings with per-variable "
+            "arguments, deterministic decomposable formulas as node graphs and .sdd files); differential against the "
+            "documented formulas coded independently in numpy (einsum contractions, forward algorithm, truth tables, "
+            "model counts)",
+            "Exploration: every generated template circuit is compiled (drawn flags / semiring / values) and compared "
+            "on all index tuples or assignments (<= 4096) with the documented CP / Tucker / tensor-train contraction, "
+            "HMM forward recursion or fully-factorised product, and logic circuits with the truth table and the model "
+            "count (symbolic integrate and IntegrateQuery); per-variable kwargs are checked structurally.",
+            "Trusted: numpy einsum formulas in vlib/props/C20.py, vlib/ref.py input functions; factor tensors are read "
+            "from the compiled values by layer scope / graph position.",
+            "DESIGN.md section 4 C20"),
+})
+
 NOT_APPLICABLE = {}
 
 
